@@ -74,7 +74,7 @@ class BuildError(Exception):
 _prophyc_lock = threading.Lock()
 
 
-def run_prophyc_cpp(schema_text, base):
+def run_prophyc_cpp(schema_text, base, patch_text=None):
     """runs the real prophyc (in-process); returns {filename: text}; raises BuildError('prophyc')"""
     import prophyc
     assert os.path.realpath(prophyc.__file__).startswith(os.path.realpath(REPO)), prophyc.__file__
@@ -87,7 +87,12 @@ def run_prophyc_cpp(schema_text, base):
         with _prophyc_lock:
             try:
                 with contextlib.redirect_stderr(err), contextlib.redirect_stdout(out):
-                    prophyc.main(['--cpp_out', tmp, src])
+                    args = ['--cpp_out', tmp]
+                    if patch_text:
+                        with open(os.path.join(tmp, base + '.patch'), 'w') as f:
+                            f.write(patch_text)
+                        args += ['--patch', os.path.join(tmp, base + '.patch')]
+                    prophyc.main(args + [src])
             except BaseException as e:  # ProphycError, GenerateError, SystemExit, crashes of prophyc itself
                 if isinstance(e, KeyboardInterrupt):
                     raise
@@ -465,9 +470,10 @@ def _clip(text):
 # ---------------------------------------------------------------------------------------------
 
 class RawBatch(object):
-    def __init__(self, schema_text, type_names, base='s0', sanitize=True):
-        """schema_text: prophy-language schema; type_names: struct/union (or enum) names to expose"""
+    def __init__(self, schema_text, type_names, base='s0', sanitize=True, patch_text=None):
+        """schema_text: prophy-language schema; type_names: struct/union (or enum) names to expose; patch_text: a --patch file"""
         self.schema_text = schema_text
+        self.patch_text = patch_text
         self.type_names = list(type_names)
         self.base = base
         self.sanitize = sanitize
@@ -503,7 +509,7 @@ class RawBatch(object):
 
     def _generate(self):
         t0 = time.time()
-        self.generated = run_prophyc_cpp(self.schema_text, self.base)
+        self.generated = run_prophyc_cpp(self.schema_text, self.base, self.patch_text)
         self.parsed = parse_header(self.generated[self.base + '.pp.hpp'])
         missing = [t for t in self.type_names if t not in self.parsed]
         if missing:
